@@ -73,9 +73,10 @@ class Spec(PropSpec):
     pid = "C07"
     subsys = "Fs"
     props_file = "C07.v"
-    theorems = ["c07_crash_image_partial", "c07_torn", "c07_synced_never_lost", "c07_unsynced_entry_gone", "c07_no_unwritten_bytes", "c07_random_sync",
+    theorems = ["c07_crash_image_partial", "c07_crash_image_renames_partial", "c07_torn", "c07_synced_never_lost", "c07_unsynced_entry_gone", "c07_no_unwritten_bytes", "c07_random_sync",
                 "c07_rename_file_refuted", "c07_rename_cross_src_first_refuted", "c07_rename_cross_clean_example",
-                "c07_recreate_refuted", "c07_kind_swap_refuted", "c07_nonvacuous", "c07_torn_nonvacuous"]
+                "c07_recreate_refuted", "c07_kind_swap_refuted", "c07_nonvacuous", "c07_torn_nonvacuous",
+                "c07_renames_nonvacuous"]
     coq_targets = ["C07.vo"]
     consts = FS_CONSTS
     anchors = FS_ANCHORS + [("crates/turmoil/src/sim.rs", "crash")]
@@ -92,11 +93,17 @@ class Spec(PropSpec):
         "expectations are asserted for entries all of whose ancestors are durable; once a crash meets a dangling durable subtree nothing more is asserted for that host",
         "symlinks, hard links, permissions, timestamps are outside the property; io_uring fsync is covered by C18",
     ]
-    partial_note = ("c07_crash_image_partial is proved for every block size, coin and draw sequence, for the alphabet without "
-                    "create_dir_all / remove_dir_all and without successful renames of regular files (the oracle asserts the "
-                    "renames of data-synced files outside the narrow classes RenameFile / RenameCrossDir; the rest is covered by the model, the "
-                    "correspondence and the oracle only); it holds outside the known classes RenameFile, RenameSelf, RenameDir, StaleHandle, Recreate (for the theorem: any creation of a file at a name a file left since the last crash; the known finding Recreate is narrower and the oracle asserts the re-creations outside it), "
-                    "KindSwap, RootOp")
+    partial_note = ("two crash-image theorems, both for every history, block size, coin and draw sequence: c07_crash_image_partial "
+                    "(alphabet without create_dir_all / remove_dir_all; hypothesis: no class of FsSafe.v - which excludes every "
+                    "successful rename of a regular file and every creation of a file at a name a file left - and no KindSwap) and "
+                    "c07_crash_image_renames_partial (the same alphabet plus renames of regular files within one directory, onto a "
+                    "fresh name or over an existing file, with crashes before and after the flushing sync_dir; hypothesis: no KNOWN "
+                    "class - the narrow classes of known_findings.txt as gen/fam_fs.py decides them, mirrored by FsKnown.v and "
+                    "cross-checked on every generated history). Still excluded by the second theorem beyond the known classes: "
+                    "create_dir_all / remove_dir_all, renames between two directories (oracle + narrow class RenameCrossDir only), "
+                    "any creation of a file at a name a file left since the last crash (the known finding Recreate is narrower; the "
+                    "re-creations outside it are asserted by the oracle), a rename onto a name a directory was removed from since "
+                    "the last crash, a crash on a dangling durable subtree")
 
     def gen_cases(self, ctx):
         rng = ctx.rng
@@ -160,12 +167,13 @@ class Spec(PropSpec):
         cterm = term.replace("hrun_enc", "hdclasses_enc", 1)
         sterm = "dsafe_enc" + term.split("hrun_enc %d%%nat" % n, 1)[1]
         kterm = term.replace("hrun_enc", "hknown_enc", 1)
-        return "(%s, %s, %s, %s, %s)" % (term, dterm, cterm, sterm, kterm), probes, problems
+        ksterm = "ksafe_enc" + term.split("hrun_enc %d%%nat" % n, 1)[1]
+        return "(%s, %s, %s, %s, %s, %s)" % (term, dterm, cterm, sterm, kterm, ksterm), probes, problems
 
     def compare(self, case, obs, model, probes):
         if isinstance(model, tuple) and model and model[0] == "error":
             return "model evaluation failed: %s" % str(model[1])[-400:]
-        impl_m, (dur_m, dur_flags), klasses, coq_safe, knowns = model
+        impl_m, (dur_m, dur_flags), klasses, coq_safe, knowns, coq_ksafe = model
         d = F.compare(case, obs, impl_m, probes)
         if d:
             return d
@@ -182,6 +190,12 @@ class Spec(PropSpec):
             if py_safe != bool(coq_safe):
                 return "side condition of c07_crash_image_partial: python says %s, dsafe (Coq) says %s (features %s)" % (
                     py_safe, bool(coq_safe), sorted(feats))
+        # ... and the side condition of c07_crash_image_renames_partial (FsKnown.ksafe)
+        if case["cfg"].get("nhosts", 1) == 1:
+            py_ksafe = F.rename_theorem_side_condition(case, feats_all, any(dur_flags))
+            if py_ksafe != bool(coq_ksafe):
+                return "side condition of c07_crash_image_renames_partial: python says %s, ksafe (Coq) says %s (features %s)" % (
+                    py_ksafe, bool(coq_ksafe), sorted(feats_all))
         pk = sorted(KNOWN_IDS[k] for k in feats_all if k in KNOWN_IDS)
         if not any(dur_flags) and pk != sorted(set(knowns)):
             return "known classes disagree: python %s, FsKnown.v %s" % (pk, sorted(set(knowns)))
@@ -221,6 +235,9 @@ class Spec(PropSpec):
         h["class_free_with_clean_rename"] = sum(
             1 for c in cases if "CleanRename" in F.history_features(c)
             and not (F.history_features(c) & set(F.KNOWN_CLASSES)))
+        h["with_clean_rename_in_the_rename_theorem"] = sum(
+            1 for c in cases if c["cfg"].get("nhosts", 1) == 1 and "CleanRename" in F.history_features(c)
+            and F.rename_theorem_side_condition(c, F.history_features(c)))
         return h
 
 
